@@ -462,6 +462,10 @@ func genWritePath(t *rapid.T, root *tnode, forUnset bool) []tfSeg {
 				idx = n
 			default:
 				idx = n + drawInt(t, 1, 4, "beyond")
+				if oneIn(t, 6, "fargap") {
+					// a gap of 63-65, 127-129, 192, 256, 1024 positions (padding in blocks)
+					idx = n + []int{63, 64, 65, 127, 128, 129, 192, 256, 1024}[drawIdx(t, 9, "gap")]
+				}
 			}
 			seg = tfSeg{'#', strconv.Itoa(idx)}
 			if idx < n {
